@@ -70,7 +70,8 @@
 //!     → VIOLATION (same shape). Before hanging sources were added this probe stayed green: with
 //!     finite inputs the un-aborted tasks simply run to their end within the settle bound.
 //!  3. physical-plan/src/streaming.rs: `StreamingTableExec::execute` without `make_cooperative`
-//!     → see the report (Coop kind, provider=streaming-table).
+//!     → VIOLATION "query does not yield: … watcher … not scheduled for 30000 consecutive source
+//!     batches" (Coop kind, provider=streaming-table, CoalescePartitionsExec / SHJ / aggregates).
 use crate::build::*;
 use crate::env::Held;
 use datafusion::common::DataFusionError;
